@@ -176,16 +176,22 @@ class AbstractSpecification(object):
 
     @property
     def sampling_violation_counter(self):
+        # A specification object that has an online and an offline interpreter
+        # is used with one of them; report the violations seen by either.
+        counter = None
         if hasattr(self, 'online_interpreter'):
             if isinstance(self.online_interpreter, DiscreteTimeInterpreter):
-                return self.online_interpreter.sampling_violation_counter
+                counter = self.online_interpreter.sampling_violation_counter
             else:
                 RTAMTException('only discrete time has sampling_violation_counter')
         if hasattr(self, 'offline_interpreter'):
             if isinstance(self.offline_interpreter, DiscreteTimeInterpreter):
-                return self.offline_interpreter.sampling_violation_counter
+                if counter is None:
+                    counter = 0
+                counter = counter + self.offline_interpreter.sampling_violation_counter
             else:
                 RTAMTException('only discrete time has sampling_violation_counter')
+        return counter
 
     @property
     def sampling_tolerance(self):
